@@ -4,6 +4,7 @@ from core import (norm, L_call, L_variant, arms, assigns_to_return, closure_arg_
 from mir import op_place
 
 META = {
+    "thorough_extra": ["mocks", "client-only"],
     "level": "other",
     "explanation": "Order and guards of the rewriting layers, decided from the type-checked program: (C13.1) the layer order of the client stack is read from the type of the "
                    "ServiceBuilder on which .service(RequestExecutor) is called in build_service (tower nests it as Stack<Inner, Outer>): Http1Checks, Http2Checks and SetHostHeader "
